@@ -152,6 +152,9 @@ class C07(PropBase):
         T = T_ms * 1000000
         bs = rng.choice([0, 1, 2, 5])
         params = {'rx_consecutive_frame_timeout': T_ms, 'blocksize': bs}
+        if rng.random() < 0.2:
+            # a listener follows the same deadlines although it never answers: where a Flow Control would be due it only restarts its N_Cr timer
+            params['listen_mode'] = True
         ops = [{'op': 'layer', 'i': 0, 'addr': a, 'params': params}]
         pre = rx_prefix_bytes(a)
         fid, ext, _ = gen.rx_match_frame(a, b'')
@@ -238,6 +241,12 @@ class C07(PropBase):
         T = T_ms * 1000000
         wft = rng.choice([0, 0, 2, 3])
         params = {'rx_flowcontrol_timeout': T_ms, 'wftmax': wft}
+        # full duplex: while the layer waits for the Flow Control of its own transmission it is also RECEIVING a multi-frame message, and the
+        # awaited Flow Control is read in the same process() call as - just before - the frame that ends that reception.  "Processed within
+        # the deadline" holds for it like for any other Flow Control.
+        duplex = rng.random() < 0.25
+        if duplex:
+            params['rx_consecutive_frame_timeout'] = 40 * T_ms       # the reception itself never times out in these scenarios
         ops = [{'op': 'layer', 'i': 0, 'addr': a, 'params': params}]
         pre = gen.prefix_len(a, 'tx')
         c = 7 - pre
@@ -247,6 +256,17 @@ class C07(PropBase):
         n = (6 - pre) + c * ncf - rng.randrange(0, c - 1)
         ops.append({'op': 'send', 'i': 0, 'id': 1, 'data': gen.rand_payload(rng, n)})
         ops.append({'op': 'process', 'i': 0})       # FF out, timer starts now
+        closing = []
+        if duplex:
+            rpre = rx_prefix_bytes(a)
+            rid_, rext, _ = gen.rx_match_frame(a, b'')
+            kind = rng.choice(['last_cf', 'last_cf', 'sf', 'wrong_sn'])
+            inc = ref.foreign_stream(gen.rand_payload(rng, (6 - len(rpre)) + (7 - len(rpre)) * 2), 8, prefix=rpre, last='min')
+            for fr in inc[:-1]:
+                ops.append({'op': 'frame', 'i': 0, 'id': rid_, 'ext': rext, 'data': fr})
+                ops.append({'op': 'process', 'i': 0})
+            end = {'last_cf': inc[-1], 'sf': rpre + bytes([2, 0x11, 0x22]), 'wrong_sn': rpre + bytes([0x2F, 1, 2, 3])}[kind]
+            closing = [{'op': 'frame', 'i': 0, 'id': rid_, 'ext': rext, 'data': end}]
         nrounds = nblocks + 1 if rbs else 1
         gap_at = rng.randrange(0, nrounds)
         late = rng.random() < 0.5
@@ -273,6 +293,8 @@ class C07(PropBase):
                     # a Wait in time restarts the deadline
                     ops.append({'op': 'tick', 'dt': T - delta})
                     ops.append({'op': 'frame', 'i': 0, 'id': fidc, 'ext': ext, 'data': wait})
+                    ops.extend(closing)
+                    closing = []
                     ops.append({'op': 'process', 'i': 0})
                 parts = split_gap(rng, d, idle)
                 acc = 0
@@ -284,6 +306,8 @@ class C07(PropBase):
                         expect_at = len(ops) - 1
                 ops.append({'op': 'tick', 'dt': parts[-1]})
                 ops.append({'op': 'frame', 'i': 0, 'id': fidc, 'ext': ext, 'data': cts})
+                ops.extend(closing)
+                closing = []
                 ops.append({'op': 'process', 'i': 0})
                 expect_timeout = late
                 if late:
@@ -293,12 +317,15 @@ class C07(PropBase):
             else:
                 ops.append({'op': 'tick', 'dt': rng.choice([0, 1000, max(0, T - 1000)])})
                 ops.append({'op': 'frame', 'i': 0, 'id': fidc, 'ext': ext, 'data': cts})
+                ops.extend(closing)
+                closing = []
                 ops.append({'op': 'process', 'i': 0})
         for _ in range(4):
             ops.append({'op': 'tick', 'dt': rng.choice([T // 2 + 1, T + 1000, 3 * T])})
             ops.append({'op': 'process', 'i': 0})
-        return {'ops': ops, 'meta': {'family': 'tx', 'T': T, 'late': late, 'idle': idle, 'gap_at': gap_at, 'wait': use_wait, 'late_wait': late_wait,
-                                     'expect_timeout': expect_timeout, 'expect_at': expect_at, 'rbs': rbs, 'wft': wft}}
+        return {'ops': ops, 'no_rx_only': duplex,        # (a receive-only pass may lose a Flow Control in duplex: outside every quantifier, DESIGN 11.3)
+                'meta': {'family': 'tx', 'T': T, 'late': late, 'idle': idle, 'gap_at': gap_at, 'wait': use_wait, 'late_wait': late_wait,
+                         'expect_timeout': expect_timeout, 'expect_at': expect_at, 'rbs': rbs, 'wft': wft, 'duplex': duplex}}
 
     def project(self, op_line, out_line):
         return trace.project_events(out_line, keep=('err', 'deliver', 'done', 'tx'), status_keys=('rx', 'tr'))
@@ -376,7 +403,7 @@ class C07(PropBase):
             return ('rx', m['T'], m['ending'], m['g'], m['late'], m['idle'], m['nframes'])
         if m['family'] == 'txstandby':
             return ('txstandby', m['T'], m['late'], m['step'])
-        return ('tx', m['T'], m['gap_at'], m['late'], m['idle'], m['wait'], m['late_wait'], m['rbs'])
+        return ('tx', m['T'], m['gap_at'], m['late'], m['idle'], m['wait'], m['late_wait'], m['rbs'], m.get('duplex', False))
 
     def tally(self, dist, sc, lines_in, impl_out):
         PropBase.tally(self, dist, sc, lines_in, impl_out)
